@@ -97,7 +97,7 @@ for name, edits in M:
                 except FileNotFoundError:
                     pass
                 return d
-            if st not in ('plan', 'replay'):
+            if st != 'plan':
                 a, bb = idx('impl.txt'), idx('model.txt')
                 n = sum(1 for k in a if a[k] != bb.get(k))
                 if n:
